@@ -90,7 +90,7 @@ def work(job):
         if budget and n > budget:
             import random
             rnd = random.Random(chk.seed() * 7919 + len(job['src']))
-            sel = sorted(set(rnd.sample(range(n), budget)) | {0, n - 1, n - 2})   # the highest indexes always: they are the ones a too-narrow state member cannot hold
+            sel = sorted(set(rnd.sample(range(n), budget)) | {0, n - 1, n - 2} | {i for i in (254, 255, 256) if i < n})   # the highest indexes and the 8-bit boundary always: they are the ones a too-narrow state member cannot hold (or wraps at)
             st.d['cov']['state_sampled_programs'] = [f"{job['label']} [{job['cname']}]: {budget} of {n} states (seeded)"]
         for sidx in sel:
             for alloc in stepcmp.alloc_masks(L):
